@@ -118,7 +118,7 @@ Section Encoder.
         match fuel with
         | O => OutOfFuel
         | S f =>
-            if column <? offset then Panic 943                       (* usize subtraction *)
+            if column <? offset then Panic 12001                       (* usize subtraction *)
             else
               let shift := column - offset in
               let '(repeats, rest') := take_run column code 1 rest in
